@@ -335,9 +335,18 @@ func (p *printer) node(n *Node, ind int) {
 		p.w("}")
 	case "call":
 		var target string
-		if n.Callee == "param" {
+		switch {
+		case n.Callee == "param":
 			target = "c"
-		} else {
+		case n.Callee == "card":
+			target = "Card{Value: " + p.src(n.E, false, ind) + "}.View()"
+		case n.Callee == "box":
+			target = "Box[string]{Value: " + p.src(n.E, false, ind) + "}.View()"
+		case n.Callee == "index0":
+			target = "comps[0]"
+		case n.Callee == "index1":
+			target = "comps[1]"
+		default:
 			target = p.prefix + "T" + strings.TrimPrefix(n.Callee, "sub") + "(" + p.src(n.E, false, ind) + ", s2, b1, b2, n, xs, fail, c)"
 		}
 		if n.Legacy && !n.HasBlock {
